@@ -143,7 +143,10 @@ class GotranODECodePrinter(BaseGotranODECodePrinter):
             d[i.components].append(i)
 
         text = ""
-        for components, intermediates in d.items():
+        # Assignments without a component have no header, and would become part of the
+        # preceding block if they were written after a block with a header
+        blocks = sorted(d.items(), key=lambda item: start_odeblock("", item[0], True) != "")
+        for components, intermediates in blocks:
             text += start_odeblock("expressions", names=components, is_expression=True) + "\n"
             text += "\n".join([print_assignment(i, doprint=self.doprint) for i in intermediates])
             text += "\n\n"
